@@ -222,7 +222,7 @@ func c05Scenarios(r *hx.Run) []hx.Scenario {
 	}
 	// branching: the dial / accept / double-connection race and the back-off choices (the rest of the
 	// timing space is covered by the scenario parameters: start order, registration time, disturbances)
-	focus := []string{"prepareConnectionInitation", "http.serve", "keepThisConnection", "ReportMdnsEntries", "coordinateConnectionInitations", "mdns.deliver", "ReportMdnsEntries", "start", "reg"}
+	focus := []string{"prepareConnectionInitation", "http.serve", "keepThisConnection", "eportMdnsEntries", "coordinateConnectionInitations", "mdns.deliver", "start", "reg"}
 	var out []hx.Scenario
 	for _, c := range cfgs {
 		// delay bounding: at most d departures from the default scheduler among the focus goroutines,
